@@ -98,6 +98,9 @@ type Doc struct {
 	Extra       Object  // unknown top-level keys (osm3s, remark, ...)
 	NoElements  bool    // leave the "elements" key out altogether
 	Elements    []Element
+	// NullTop / NullElem name the absent members that are written as null (bookkeeping of the
+	// generator: the null members themselves sit in the Extra lists; version: VersionNull).
+	NullTop, NullElem []string
 }
 
 // Element is one entry of elements[].
